@@ -193,7 +193,7 @@ def oracle(scn, trace):
                     if fin is None:
                         return None   # nothing to compare (no recorded failure); abort events are handled above
                     a = fin.a
-                    want_err = "SimError" if a.cause == "exception" else None
+                    want_err = a.end.get("etype", "SimError") if a.cause == "exception" else None
                     if (a.fclass is not None and raw.get("class") != a.fclass) or raw.get("cause") != a.cause or raw.get("err") != want_err:
                         return {"class": a.fclass, "cause": a.cause, "err": want_err}
                     return None
